@@ -306,7 +306,7 @@ def run_history(fam, kind, rng, rec, h, pal):
                 else:
                     args = (hv,) + tuple(args[1:])
                     hostile = ('key', lab, hv)
-            elif op == 'update':
+            elif op == 'update' and args[0][0] != 'FAILMAP':
                 pairs = list(args[0][1]) or [(rng.choice(g.universe),
                                                g._val())]
                 i = rng.randrange(len(pairs))
@@ -318,7 +318,7 @@ def run_history(fam, kind, rng, rec, h, pal):
                     pairs[i] = (pairs[i][0], hv)
                     hostile = ('value', lab, hv)
                 args = (('PAIRS', pairs),)
-            elif op == 'supdate':
+            elif op == 'supdate' and args[0][0] != 'FAILITER':
                 ks = list(args[0][1]) + [hv]
                 if not (fam.kc == 'O' and hv != hv):
                     args = (('LIST', ks),)
